@@ -774,6 +774,22 @@ theorem bases_tamper (hA : ArithOK) {cs : Suite} {σ : Signature} {pk : PublicKe
   have h4 := modEq_cancel_right (powMod_unit hA hN hb hbs) h3
   exact (powList_prod_modEq _ _ _).symm.trans (h4.trans (powList_prod_modEq _ _ _))
 
+/-- **Other keys (same modulus).** The same signature, bases and attributes accepted under two
+public keys with the same `N`: `b^s·c ≡ b'^s·c' (mod N)`. -/
+theorem key_tamper (hA : ArithOK) {cs : Suite} {σ : Signature} {pk pk' : PublicKey}
+    {bases msgs : List Int} (hN : 1 < pk.N) (hN' : pk'.N = pk.N)
+    (hbases : ∀ a ∈ bases, Int.gcd a pk.N = 1)
+    (h1 : Accepts cs σ pk bases msgs) (h2 : Accepts cs σ pk' bases msgs) :
+    ∃ bs bs', powMod pk.b σ.s pk.N = some bs ∧ powMod pk'.b σ.s pk.N = some bs' ∧
+      bs * pk.c ≡ bs' * pk'.c [ZMOD pk.N] := by
+  obtain ⟨-, bs, hbs, e1⟩ := accepts_equation hA (by omega) h1
+  obtain ⟨-, bs', hbs', e2⟩ := accepts_equation hA (by omega) h2
+  rw [hN'] at hbs' e2
+  refine ⟨bs, bs', hbs, hbs', ?_⟩
+  have h3 := e1.symm.trans e2
+  rw [mul_assoc, mul_assoc] at h3
+  exact modEq_cancel_left (powList_gcd hbases msgs) h3
+
 /-- an accepted `v` is a unit (when the public values are). -/
 theorem accepted_v_unit (hA : ArithOK) {cs : Suite} {σ : Signature} {pk : PublicKey}
     {bases msgs : List Int} (hN : 1 < pk.N) (hbases : ∀ a ∈ bases, Int.gcd a pk.N = 1)
@@ -1299,5 +1315,45 @@ example : KeyOK ⟨77, 4, 9⟩ ⟨7, 11⟩ :=
   ⟨by show Nat.Prime 7; decide, by show Nat.Prime 11; decide, by decide, by decide⟩
 
 example : Int.gcd 4 77 = 1 ∧ Int.gcd 9 77 = 1 ∧ (0 : Int) ≤ 9 ∧ Int.gcd 16 77 = 1 := by decide
+
+/-- a toy suite (`le = lm + 2`) small enough to run the model inside the kernel. -/
+def toy : Suite :=
+  { secparam := 3, ln := 7, lm := 2, lin := 2, le := 4, ls := 3, t := 1, l := 1, s := 1, s1 := 1, s2 := 1 }
+
+/-- a complete run: the tape `bits 10, prime 11, bits 5` makes `sign_multiattr` return
+`(e, s, v) = (11, 5, 58)` on the attribute `3` under the toy key, with all the hypotheses of
+`cl_sign_verify` true (so the theorems are not vacuous) … -/
+example : signMultiattr toy ⟨77, 4, 9⟩ ⟨7, 11⟩ [16] [3]
+    [⟨"bits", 10⟩, ⟨"prime", 11⟩, ⟨"bits", 5⟩] = .ok (⟨11, 5, 58⟩, []) := by
+  have hE : drawE toy ((7 - 1) * (11 - 1)) (3 + 1) [⟨"bits", 10⟩, ⟨"prime", 11⟩, ⟨"bits", 5⟩] =
+      .ok (11, [⟨"bits", 5⟩]) := by
+    unfold drawE
+    refine (bind_of_ok (randomPrime_cons 4 10 11 _ (by decide) (by decide) (by decide))).trans ?_
+    rw [ite_apply_tape, if_pos (by decide +kernel)]
+    rfl
+  unfold signMultiattr
+  refine (bind_of_ok (remaining_apply _)).trans ?_
+  refine (bind_of_ok hE).trans ?_
+  refine (bind_of_ok (randomBits_cons 3 5 [] (by decide) (by decide))).trans ?_
+  refine (bind_of_ok (ofOpt_ok_iff.mpr
+    ⟨(by decide +kernel : invMod 11 ((7 - 1) * (11 - 1)) = some 11), rfl⟩)).trans ?_
+  have hP : prodPow 77 [16] 0 [3] 1 [] = .ok (1 * 15, []) := by
+    unfold prodPow
+    refine (bind_of_ok (idx_lt (by decide) _)).trans ?_
+    refine (bind_of_ok (pw_apply (by decide +kernel : powMod 16 3 77 = some 15) _)).trans ?_
+    rfl
+  refine (bind_of_ok hP).trans ?_
+  refine (bind_of_ok (pw_apply (by decide +kernel : powMod 4 5 77 = some 23) _)).trans ?_
+  refine (bind_of_ok (pw_apply (by decide +kernel : powMod (1 * 15 * 23 * 9) 11 77 = some 58) _)).trans ?_
+  rfl
+
+/-- … and `verify_multiattr` accepts it, computed directly (no `ArithOK`). -/
+example : verifyMultiattr toy ⟨11, 5, 58⟩ ⟨77, 4, 9⟩ [16] [3] [] = .ok (true, []) := by
+  refine verifyMultiattr_ok_iff.mpr ⟨rfl, by decide, 25, 1 * 15, 23, by decide +kernel, ?_,
+    by decide +kernel, by decide +kernel⟩
+  unfold prodPow
+  refine (bind_of_ok (idx_lt (by decide) _)).trans ?_
+  refine (bind_of_ok (pw_apply (by decide +kernel : powMod 16 3 77 = some 15) _)).trans ?_
+  rfl
 
 end Zk.C13
